@@ -131,6 +131,14 @@ func (e *env) finish() {
 	if s.Geo.InMemoryBlocks {
 		return
 	}
+	if s.Geo.Persistent && s.StateStore != nil {
+		// a popped block must have been handed back (judged from the allocation order, not from the list's bookkeeping)
+		if n := len(s.StateStore.Written); n > 0 && !s.ReleaseWakeupReady() {
+			if v := s.Alloc.PoppedNotReleased(s.StateStore.Written[n-1]); len(v) > 0 {
+				failf("popped-block-never-released", "after all readers/writers finished and the syncer had nothing left to do: %s\nregions: %s", v[0], s.Alloc.Describe())
+			}
+		}
+	}
 	want := s.Geo.BlockCount() - s.Alloc.LiveInList()
 	got := 0
 	// Drain THROUGH the ownership monitor: every region handed out now is also checked against the last
